@@ -1,5 +1,5 @@
 """C14 - Spectra survive file and pickle round trips (DESIGN.md C14): R-IO handle typestate + writer/reader tables."""
-import ast
+import ast, re
 from sa import generic
 from sa.extract import single_assignments, inline, names_in
 from sa.srcmodel import own_nodes, dotted, positional_params, bind_call
@@ -129,6 +129,11 @@ def io_check(rep, m, fn, min_uses):
     # also: handles opened in the two branches of the .gz test must be of the same kind
     opens = [n for n in own_nodes(fn) if isinstance(n, ast.Call) and dotted(n.func) in ('open', 'gzip.open')]
     kinds = {mode_kind(n) for n in opens}
+    if not opens and q == 'Spectrum.to_file' and WRITER.get('verdicts') is not None:
+        # the opener is chosen first and called once (opener = gzip.open if ... else open): both worlds by abstract execution
+        v_ = WRITER['verdicts']['open']
+        rep.ob('R-IO', '%s open modes' % q, v_[0], v_[1], m.rel, fn.lineno, what='every branch opens the file in text mode')
+        return
     rep.ob('R-IO', '%s open modes' % q, len(kinds) == 1 and kinds == {'text'},
            'handles are opened as %s' % ', '.join('%s -> %s' % (ast.unparse(n), mode_kind(n)) for n in opens), m.rel,
            opens[0].lineno if opens else fn.lineno, what='every branch opens the file in text mode')
@@ -139,6 +144,135 @@ def io_check(rep, m, fn, min_uses):
 
 def str_consts(node):
     return [n.value for n in ast.walk(node) if isinstance(n, ast.Constant) and isinstance(n.value, str)]
+
+
+WRITER = {}
+
+
+def writer_by_execution(prog, m):
+    """What Spectrum.to_file sends to the file, as a token stream, in every world of (.gz or not, foldmaskinfo, folded, labels or none,
+    one comment): abstract execution with a concrete two-dimensional shape, two symbolic labels and one symbolic comment.  String
+    formats are expanded into literal pieces and conversions, adjacent literals joined, so `for d in shape: write('%i ' % d)` and
+    `write(('%i ' * len(shape)) % shape)` are the same stream.  Returns {obligation: (ok, detail)} or None when the function cannot be
+    followed."""
+    import itertools
+    from sa import miniexec as mx
+    from sa import alpha as _alpha
+    to = prog.func(SM, 'Spectrum.to_file')
+    known = _alpha.load_table().get('__params__', {}).get(m.rel)
+    known = set(known) if known is not None else None
+    spec_rx = re.compile(r'%(?:%|\.?\d*[a-zA-Z])')
+
+    def pieces_of(v):
+        """token list of one written value"""
+        if isinstance(v, str):
+            return [('lit', v)]
+        if isinstance(v, mx.Sym) and v.struct and v.struct[0] == 'binop' and v.struct[1] == '%' and isinstance(v.struct[2], str):
+            fmt, val = v.struct[2], v.struct[3]
+            vals = list(val) if isinstance(val, tuple) else [val]
+            out, pos, k = [], 0, 0
+            for mm in spec_rx.finditer(fmt):
+                if mm.start() > pos:
+                    out.append(('lit', fmt[pos:mm.start()]))
+                if mm.group(0) == '%%':
+                    out.append(('lit', '%'))
+                else:
+                    if k >= len(vals):
+                        raise mx.Undecidable('format %r with %d values' % (fmt, len(vals)))
+                    out.append(('conv', mm.group(0), mx.show(vals[k])))
+                    k += 1
+                pos = mm.end()
+            if pos < len(fmt):
+                out.append(('lit', fmt[pos:]))
+            if k != len(vals):
+                raise mx.Undecidable('format %r with %d values' % (fmt, len(vals)))
+            return out
+        if isinstance(v, mx.Sym) and v.struct and v.struct[0] == 'binop' and v.struct[1] == '+':
+            return pieces_of(v.struct[2]) + pieces_of(v.struct[3])
+        return [('val', mx.show(v))]
+
+    def flat_row(v):
+        """the array written on one line, in C order: RAVEL(<array>) for ravel / flatten / reshape(-1) / reshape(1, -1), method or function form"""
+        for nm_ in ('ravel', 'flatten'):
+            rec = mx.method_call(v, nm_)
+            if rec is not None and mx.show(rec) not in ('numpy', 'np') and not v.struct[2] and not v.struct[3]:
+                return 'RAVEL(%s)' % mx.show(rec)
+            c_ = mx.call_of(v, nm_)
+            if c_ is not None and len(c_[0]) == 1 and not c_[1] and (mx.method_call(v, nm_) is None or mx.show(mx.method_call(v, nm_)) in ('numpy', 'np')):
+                return 'RAVEL(%s)' % mx.show(c_[0][0])
+        rec = mx.method_call(v, 'reshape')
+        if rec is not None and mx.show(rec) not in ('numpy', 'np') and not v.struct[3]:
+            a_ = v.struct[2][0] if len(v.struct[2]) == 1 and isinstance(v.struct[2][0], (tuple, list)) else v.struct[2]
+            if tuple(a_) in ((-1,), (1, -1)):
+                return 'RAVEL(%s)' % mx.show(rec)
+        return mx.show(v)
+
+    def join(tokens):
+        out = []
+        for t_ in tokens:
+            if t_[0] == 'lit' and out and out[-1][0] == 'lit':
+                out[-1] = ('lit', out[-1][1] + t_[1])
+            elif t_ != ('lit', ''):
+                out.append(t_)
+        return out
+    res = {k: [True, []] for k in ('open', 'folding', 'labels', 'data', 'mask', 'order', 'comments')}
+    n_worlds = 0
+    try:
+        for gz, fmi, folded, labelled in itertools.product((False, True), repeat=4):
+            fname = 'spectrum.fs.gz' if gz else 'spectrum.fs'
+            data = mx.Sym('self.data', attrs={'shape': (mx.Sym('n0'), mx.Sym('n1'))})
+            selfv = mx.Sym('self', truth=True, attrs={'data': data, 'folded': folded, 'mask': mx.Sym('self.mask'),
+                                                       'pop_ids': [mx.Sym('label0'), mx.Sym('label1')] if labelled else None, 'shape': (mx.Sym('n0'), mx.Sym('n1'))})
+            it = mx.Interp(prog, m, known_functions=known)
+            paths = [p_ for p_ in it.run(to, {'self': selfv, 'fname': fname, 'precision': mx.Sym('precision'), 'comment_lines': [mx.Sym('comment0')], 'foldmaskinfo': fmi}) if p_[0][0] == 'return']
+            if len(paths) != 1:
+                raise mx.Undecidable('%d returning paths' % len(paths))
+            n_worlds += 1
+            events = paths[0][1]
+            tag = '%s foldmaskinfo=%s folded=%s %s' % ('.gz' if gz else 'plain', fmi, folded, 'labels' if labelled else 'no labels')
+            opens = [e for e in events if e[0] == 'call' and e[1] in ('open', 'gzip.open')]
+            if len(opens) != 1 or opens[0][1] != ('gzip.open' if gz else 'open') or mx.show(opens[0][2][0]) != repr(fname) or \
+                    (opens[0][2][1] if len(opens[0][2]) > 1 else opens[0][3].get('mode', 'r')) not in (('wt',) if gz else ('w', 'wt')):
+                res['open'][0] = False
+                res['open'][1].append('%s: %s' % (tag, [(e[1], [mx.show(a) for a in e[2]]) for e in opens]))
+            stream = []
+            for e in events:
+                if e[0] != 'call':
+                    continue
+                if e[1].endswith('.write') and len(e[2]) == 1 and ('open(' in e[1]):
+                    stream += pieces_of(e[2][0])
+                elif e[1].split('.')[-1] == 'savetxt':
+                    row = e[2][1] if len(e[2]) > 1 else e[3].get('X')
+                    row = row[0] if isinstance(row, (list, tuple)) and len(row) == 1 else row
+                    fmt = e[3].get('fmt')
+                    stream.append(('line', flat_row(row), ''.join(('{%s}' % t_[2]) if t_[0] == 'conv' else t_[1] if t_[0] == 'lit' else '{%s}' % t_[1] for t_ in join(pieces_of(fmt))) if fmt is not None else None,
+                                   mx.show(e[3].get('delimiter'))))
+                elif e[1].endswith('.close') and 'open(' in e[1]:
+                    stream.append(('close',))
+            stream = join(stream)
+            want = [('lit', '# '), ('val', 'comment0.strip()'), ('lit', '\n'), ('conv', '%i', 'n0'), ('lit', ' '), ('conv', '%i', 'n1'), ('lit', ' ')]
+            if fmi:
+                want.append(('lit', 'folded' if folded else 'unfolded'))
+                if labelled:
+                    want += [('lit', ' "'), ('conv', '%s', 'label0'), ('lit', '" "'), ('conv', '%s', 'label1'), ('lit', '"')]
+            want.append(('lit', '\n'))
+            want.append(('line', 'RAVEL(self.data)', '%.{precision}g', "' '"))
+            if fmi:
+                want.append(('line', 'RAVEL(numpy.asarray(self.mask, int))', '%d', "' '"))
+            want.append(('close',))
+            want = join(want)
+            if stream != want:
+                # attribute the difference to the first token that differs
+                k = next((i_ for i_, (a_, b_) in enumerate(zip(stream, want)) if a_ != b_), min(len(stream), len(want)))
+                got_t = stream[k] if k < len(stream) else ('nothing',)
+                exp_t = want[k] if k < len(want) else ('nothing',)
+                kind = 'comments' if k < 3 else 'data' if exp_t[:2] == ('line', 'RAVEL(self.data)') or got_t[:2] == ('line', 'RAVEL(self.data)') else \
+                    'mask' if 'mask' in str(exp_t) + str(got_t) else 'labels' if 'label' in str(exp_t) + str(got_t) else 'folding' if 'folded' in str(exp_t) + str(got_t) else 'order'
+                res[kind][0] = False
+                res[kind][1].append('%s: token %d is %s, expected %s' % (tag, k, got_t, exp_t))
+    except mx.Undecidable:
+        return None
+    return {k: (v[0], '; '.join(v[1][:2]) if v[1] else 'as specified in all %d worlds (token stream compared)' % n_worlds) for k, v in res.items()}
 
 
 def check_tables(rep, prog, m):
@@ -205,6 +339,9 @@ def check_tables(rep, prog, m):
                 det.append('foldmaskinfo=%s folded=%s writes %s' % (M, F, written))
     for ev, g in tok:
         det.append('%r under %s' % (ev.value, ' and '.join(g)))
+    W = WRITER.get('verdicts')
+    if W is not None:
+        ok, det = W['folding'][0], [W['folding'][1]]
     rep.ob('R-TPL', 'to_file folding token', ok, '; '.join(det), rel, to.lineno, what="writes 'folded' iff self.folded, only with foldmaskinfo")
     # reader: sentinel set and flag
     sent = None
@@ -246,7 +383,9 @@ def check_tables(rep, prog, m):
     lab = [ev for (k, ev, g, st) in events if k == 'write' and isinstance(ev, ast.BinOp) and isinstance(ev.op, ast.Mod)
            and isinstance(ev.left, ast.Constant) and '"' in str(ev.left.value)]
     okw = len(lab) == 1 and lab[0].left.value.count('"') == 2 and '"%s"' in lab[0].left.value and lab[0].left.value[0] in ' \t'
-    rep.ob('R-TPL', 'to_file labels', okw, 'labels written with format %r' % (lab[0].left.value if lab else None), rel, lab[0].lineno if lab else to.lineno,
+    if W is not None:
+        okw = W['labels'][0]
+    rep.ob('R-TPL', 'to_file labels', okw, W['labels'][1] if W is not None else 'labels written with format %r' % (lab[0].left.value if lab else None), rel, lab[0].lineno if lab else to.lineno,
            what='each label is written as separator + "label"')
     pr = [n for n in own_nodes(fr) if isinstance(n, ast.Assign) and ast.unparse(n.targets[0]) == 'pop_ids' and isinstance(n.value, ast.Subscript)]
     okp = False
@@ -257,6 +396,7 @@ def check_tables(rep, prog, m):
     rep.ob('R-TPL', 'from_file labels', okp, 'labels parsed by %s' % (ast.unparse(pr[0].value) if pr else None), rel, pr[0].lineno if pr else fr.lineno,
            what='labels = odd fields of the header split on the quote character (spaces allowed inside labels)')
     # line order: header newline, then data savetxt, then mask savetxt under foldmaskinfo
+    seen_lines = set()
     order = []
     for (k, ev, g, st) in events:
         if k == 'write' and isinstance(ev, ast.Constant) and ev.value == '\n' and not any(x.startswith('for ') for x in g):
@@ -268,19 +408,49 @@ def check_tables(rep, prog, m):
                 okm = 'foldmaskinfo' in ' '.join(g) and 'int' in src and 'not' not in src and '~' not in src
                 fmts = [k2.value for k2 in ev.keywords if k2.arg == 'fmt']
                 okm = okm and fmts and isinstance(fmts[0], ast.Constant) and fmts[0].value in ('%d', '%i')
-                rep.ob('R-TPL', 'to_file mask line', bool(okm), 'mask written by %s' % ast.unparse(ev)[:90], rel, ev.lineno,
+                if W is not None:
+                    okm = W['mask'][0]
+                seen_lines.add('mask')
+                rep.ob('R-TPL', 'to_file mask line', bool(okm), W['mask'][1] if W is not None else 'mask written by %s' % ast.unparse(ev)[:90], rel, ev.lineno,
                        what='mask written as integers (1 = masked), only with foldmaskinfo')
             else:
                 okd = ('ravel' in src or 'reshape(1, -1)' in src.replace('(1,-1)', '(1, -1)')) and 'order' not in src and '.T' not in src and 'transpose' not in src and not g
                 fmts = [k2.value for k2 in ev.keywords if k2.arg == 'fmt']
                 okd = okd and fmts and 'precision' in names_in(fmts[0])
-                rep.ob('R-TPL', 'to_file data line', bool(okd), 'data written by %s' % ast.unparse(ev)[:90], rel, ev.lineno,
+                if W is not None:
+                    okd = W['data'][0]
+                seen_lines.add('data')
+                rep.ob('R-TPL', 'to_file data line', bool(okd), W['data'][1] if W is not None else 'data written by %s' % ast.unparse(ev)[:90], rel, ev.lineno,
                        what='data written in C order on one line with the requested precision, unconditionally')
     # (a header end written in each of two exclusive branches is one header end)
     order = [x for i_, x in enumerate(order) if i_ == 0 or x != order[i_ - 1]]
-    rep.ob('R-TPL', 'to_file line order', order == ['header-end', 'data', 'mask'], 'line-producing events in order: %s' % order, rel, to.lineno,
+    if W is not None:
+        # (when the two savetxt calls are not written out as two statements, the obligations above were not met: record them here)
+        for k_ in ('data', 'mask'):
+            if k_ not in seen_lines:
+                rep.ob('R-TPL', 'to_file %s line' % k_, W[k_][0], W[k_][1], rel, to.lineno, what='%s line' % k_)
+    rep.ob('R-TPL', 'to_file line order', W['order'][0] if W is not None else order == ['header-end', 'data', 'mask'], W['order'][1] if W is not None else 'line-producing events in order: %s' % order, rel, to.lineno,
            what='header, data line, mask line')
     # reader consumes in the same order: readline (header loop), readline (data), readline (mask)
+    sing_r = single_assignments(fr)
+
+    def decode_calls(var):
+        """(fromstring-like calls, reshape calls) in the assignments to var"""
+        fs_, rs_ = [], []
+        for n in own_nodes(fr):
+            if isinstance(n, ast.Assign) and ast.unparse(n.targets[0]) == var:
+                for c in ast.walk(n.value):
+                    if isinstance(c, ast.Call) and _last(dotted(c.func)) in ('fromstring', 'fromfile', 'loadtxt'):
+                        fs_.append(c)
+                    if isinstance(c, ast.Call) and isinstance(c.func, ast.Attribute) and c.func.attr == 'reshape':
+                        rs_.append(c)
+        return fs_, rs_
+    # which line each readline() call consumes: by the name it is bound to, or by the array whose text it is
+    text_of = {}
+    for var in ('data', 'mask'):
+        for c in decode_calls(var)[0]:
+            if c.args and isinstance(c.args[0], ast.Name):
+                text_of[c.args[0].id] = var
     reads = []
     for n in own_nodes(fr):
         if isinstance(n, ast.Call) and isinstance(n.func, ast.Attribute) and n.func.attr == 'readline':
@@ -290,34 +460,36 @@ def check_tables(rep, prog, m):
                 par = par._parent
             if isinstance(par, ast.Assign):
                 role = ast.unparse(par.targets[0])
+                role = {'maskline': 'mask'}.get(role, text_of.get(role, role))
             reads.append((n.lineno, role))
-    reads.sort()
+    reads.sort(key=lambda x: x[0])
     roles = [r for _, r in reads]
-    okro = roles[:2] == ['line', 'line'] and roles[2:] == ['data', 'maskline']
-    rep.ob('R-TPL', 'from_file line order', okro, 'readline() results bound, in order, to %s' % roles, rel, fr.lineno, what='header, data line, mask line')
+    okro = roles[:2] == ['line', 'line'] and roles[2:] == ['data', 'mask']
+    unfollowed = None in roles or len(roles) != 4 or any(r_ not in ('line', 'data', 'mask') for r_ in roles)
+    rep.ob('R-TPL', 'from_file line order', okro, ('readline() results consumed, in order, as %s' % roles) + (' (a read whose use the rule does not follow: the order of consumption is not recognised)' if unfollowed and not okro else ''),
+           rel, fr.lineno, what='header, data line, mask line')
     # data / mask decode: count=prod(shape), reshape(*shape); mask optional
-    for var, src in (('data', None), ('mask', 'maskline')):
-        asg = [n for n in own_nodes(fr) if isinstance(n, ast.Assign) and ast.unparse(n.targets[0]) == var and isinstance(n.value, ast.Call)
-               and _last(dotted(n.value.func)) in ('fromstring', 'fromfile', 'loadtxt', 'array')]
+    for var in ('data', 'mask'):
+        fs_, rs_ = decode_calls(var)
         okc = False
-        if asg:
-            c = asg[0].value
-            kw = {k.arg: k.value for k in c.keywords}
+        if fs_:
+            kw = {k.arg: inline(k.value, sing_r) for k in fs_[0].keywords}
             okc = 'count' in kw and ast.unparse(kw['count']).replace('np.', 'numpy.') == 'numpy.prod(shape)' and 'sep' in kw
-        rs = [n for n in own_nodes(fr) if isinstance(n, ast.Assign) and ast.unparse(n.targets[0]) == var and isinstance(n.value, ast.Call)
-              and _last(dotted(n.value.func)) == 'reshape']
-        okc = okc and bool(rs) and ast.unparse(rs[0].value.args[0]) in ('*shape', 'shape') and not rs[0].value.keywords
-        rep.ob('R-TPL', 'from_file %s decode' % var, okc, '%s parsed with count=prod(shape) and reshaped in C order' % var, rel, asg[0].lineno if asg else fr.lineno,
-               what='%s line has prod(shape) entries, C order' % var)
-    opt = [n for n in own_nodes(fr) if isinstance(n, ast.If) and ast.unparse(n.test) in ('not maskline', 'maskline == \'\'')]
+        okc = okc and bool(rs_) and ast.unparse(rs_[0].args[0]) in ('*shape', 'shape') and not rs_[0].keywords
+        rep.ob('R-TPL', 'from_file %s decode' % var, okc, ('%s parsed with count=prod(shape) and reshaped in C order' % var) if fs_ else 'statement that parses the %s line not found' % var,
+               rel, fs_[0].lineno if fs_ else fr.lineno, what='%s line has prod(shape) entries, C order' % var)
+    mask_texts = {k for k, v in text_of.items() if v == 'mask'} | {'maskline'}
+    t_empty = ['not %s' % k for k in mask_texts] + ["%s == ''" % k for k in mask_texts]
+    t_full = list(mask_texts) + ["%s != ''" % k for k in mask_texts] + ['len(%s) > 0' % k for k in mask_texts]
+    opt = [n for n in own_nodes(fr) if isinstance(n, ast.If) and ast.unparse(n.test) in t_empty]
     oko = bool(opt) and any(isinstance(x, ast.Assign) and ast.unparse(x.targets[0]) == 'mask' and ast.unparse(x.value) == 'None' for x in opt[0].body)
     if not opt:
         # `mask = None` as the default, overwritten only when there is a mask line
         blk = fr.body
         for i, x in enumerate(blk):
-            if isinstance(x, ast.If) and ast.unparse(x.test) in ('maskline', "maskline != ''", 'len(maskline) > 0') and not x.orelse and i > 0:
-                prev = blk[i - 1]
-                if isinstance(prev, ast.Assign) and ast.unparse(prev) == 'mask = None' and any(isinstance(y, ast.Assign) and ast.unparse(y.targets[0]) == 'mask' for y in x.body):
+            if isinstance(x, ast.If) and ast.unparse(x.test) in t_full and not x.orelse and i > 0:
+                before = [y for y in blk[:i] if isinstance(y, ast.Assign) and ast.unparse(y.targets[0]) == 'mask']
+                if before and ast.unparse(before[-1]) == 'mask = None' and any(isinstance(y, ast.Assign) and ast.unparse(y.targets[0]) == 'mask' for y in x.body):
                     opt, oko = [x], True
     rep.ob('R-TPL', 'from_file optional mask', oko, 'missing mask line (pre-1.3 format) gives mask=None', rel, opt[0].lineno if opt else fr.lineno,
            what='mask line optional')
@@ -336,7 +508,9 @@ def check_tables(rep, prog, m):
     cw = [(ev, g) for (k, ev, g, st) in events if k == 'write' and any(x.startswith('for line in comment_lines') for x in g)]
     okcw = len(cw) == 3 and isinstance(cw[0][0], ast.Constant) and cw[0][0].value.startswith('#') and ast.unparse(cw[1][0]) == 'line.strip()' \
         and isinstance(cw[2][0], ast.Constant) and cw[2][0].value == '\n'
-    rep.ob('R-TPL', 'to_file comments', okcw, 'comment line written as %s' % [ast.unparse(e) for e, _ in cw], rel, to.lineno, what="'#' + text + newline per comment")
+    if W is not None:
+        okcw = W['comments'][0]
+    rep.ob('R-TPL', 'to_file comments', okcw, W['comments'][1] if W is not None else 'comment line written as %s' % [ast.unparse(e) for e, _ in cw], rel, to.lineno, what="'#' + text + newline per comment")
     cr = [n for n in own_nodes(fr) if isinstance(n, ast.While) and 'startswith' in ast.unparse(n.test)]
     okcr = bool(cr) and str_consts(cr[0].test) == ['#'] and any('line[1:].strip()' in ast.unparse(x) for x in cr[0].body) \
         and any(isinstance(x, ast.Assign) and 'readline' in ast.unparse(x.value) for x in cr[0].body)
@@ -409,6 +583,7 @@ def check_array_io(rep, prog):
 def run(rep, prog, tier):
     m = prog.mod(SM)
     rep.saw_file(m.rel)
+    WRITER['verdicts'] = writer_by_execution(prog, m)
     for q, mn in (('Spectrum.to_file', 4), ('Spectrum.from_file', 2)):
         fn = prog.func(SM, q)
         generic.rule_name(rep, prog, m, fn)
